@@ -84,6 +84,7 @@ func TestVerifReplay(t *testing.T) {
 			}
 			var writes []string
 			var statusPatched bool
+			var firstDesiredNotEmpty string
 			var patchedConditions []string
 			var patchedNote string
 			refsPersisted := false
@@ -177,6 +178,9 @@ func TestVerifReplay(t *testing.T) {
 				}
 				sort.Strings(s.ctxKeys)
 				reqs = append(reqs, s)
+				if i == 0 && (req.GetDesired().GetComposite() != nil || len(req.GetDesired().GetResources()) != 0) {
+					firstDesiredNotEmpty = fmt.Sprint(req.GetDesired())
+				}
 				b := pl[i]
 				if b == "error" {
 					return nil, errors.New("function unavailable")
@@ -189,11 +193,11 @@ func TestVerifReplay(t *testing.T) {
 					d.Composite = &fnv1.Resource{Resource: MustStruct(map[string]any{"apiVersion": "example.org/v1", "kind": "XThing", "status": map[string]any{
 						"note":       "written-by-the-function",
 						"conditions": []any{map[string]any{"type": "Ready", "status": "True", "reason": "Available", "lastTransitionTime": "2024-01-01T00:00:00Z"}},
-					}}), Ready: fnv1.Ready_READY_TRUE} // ... and explicitly marks the XR ready
+					}}), Ready: fnv1.Ready_READY_TRUE, ConnectionDetails: req.GetDesired().GetComposite().GetConnectionDetails()} // ... and explicitly marks the XR ready
 				}
 				if i > 0 && i == len(pl)-1 && d.Composite != nil {
 					// the last of several functions rebuilds the desired XR and has no opinion on its readiness
-					d.Composite = &fnv1.Resource{Resource: d.Composite.GetResource()}
+					d.Composite = &fnv1.Resource{Resource: d.Composite.GetResource(), ConnectionDetails: d.Composite.GetConnectionDetails()}
 				}
 				for k, v := range req.GetDesired().GetResources() {
 					d.Resources[k] = v
@@ -326,6 +330,9 @@ func TestVerifReplay(t *testing.T) {
 				if !found || len(persistedRefs) != len(pl) {
 					t.Fatalf("VERIF-REPRODUCED: %s: persisted references %v do not name every desired resource (%d desired, \"keep\" among them)", desc, persistedRefs, len(pl))
 				}
+			}
+			if firstDesiredNotEmpty != "" {
+				t.Fatalf("VERIF-REPRODUCED: %s: the first step was handed the desired state %s, want an empty one (nothing a function did not produce may enter the pipeline)", desc, firstDesiredNotEmpty)
 			}
 			if err == nil {
 				switch {
